@@ -285,6 +285,48 @@ impl Make for Adjacent2 {
     }
 }
 
+/// one struct type as the payload of two variants
+#[derive(Serialize, Deserialize, AvroSchema, Debug, Clone, PartialEq, Default)]
+#[serde(tag = "k3", content = "v3")]
+pub enum Adjacent3 {
+    #[default]
+    Zero,
+    From(Point),
+    To(Point),
+    Count(i32),
+    Size(i32),
+}
+impl Make for Adjacent3 {
+    fn make(rng: &mut Rng, d: usize) -> Self {
+        match rng.below(5) {
+            0 => Adjacent3::Zero,
+            1 => Adjacent3::From(Point::make(rng, d)),
+            2 => Adjacent3::To(Point::make(rng, d)),
+            3 => Adjacent3::Count(int(rng)),
+            _ => Adjacent3::Size(int(rng)),
+        }
+    }
+}
+
+/// the same with an untagged-free bare union is a compile error (duplicate schemas); internally tagged:
+#[derive(Serialize, Deserialize, AvroSchema, Debug, Clone, PartialEq, Default)]
+#[serde(tag = "type")]
+pub enum Internal2 {
+    #[default]
+    Idle,
+    A(OptPoint),
+    B(OptPoint),
+}
+impl Make for Internal2 {
+    fn make(rng: &mut Rng, d: usize) -> Self {
+        match rng.below(3) {
+            0 => Internal2::Idle,
+            1 => Internal2::A(OptPoint::make(rng, d)),
+            _ => Internal2::B(OptPoint::make(rng, d)),
+        }
+    }
+}
+
 /// two adjacently tagged enums with the same tag name in one record
 #[derive(Serialize, Deserialize, AvroSchema, Debug, Clone, PartialEq, Default)]
 pub struct TwoAdjacent {
@@ -418,6 +460,8 @@ macro_rules! for_each_c17_extra_type {
         $m!(Adjacent);
         $m!(Adjacent2);
         $m!(TwoAdjacent);
+        $m!(Adjacent3);
+        $m!(Internal2);
         $m!(OptPoint);
         $m!(Internal);
         $m!(UsesInternal);
